@@ -456,12 +456,13 @@ def c17_run_history(env, hist, an, L):
             r = env.run(binpath, args, lp)
             toks.append("C %d %s %d ok 1 @%s:0:%d" % (pid, xhex(hsh), i + 1, lname, len(lb)))
         snap = env.snapshot(binpath)
-        obs.append(dict(step=st, rc=r["rc"], killed=r["killed"], dumped="Objdump File:" in r["stderr"], cached="Using cached objdump." in r["stderr"],
+        obs.append(dict(step=st, rc=r["rc"], killed=r["killed"], dumped=(r["rc"] == 0 or "Objdump File:" in r["stderr"]), cached="Using cached objdump." in r["stderr"],
                         stdout=r["stdout"], stderr_tail=r["stderr"][-400:], files=sorted("%s:%s" % (kd, describe(c)) for (kd, c) in snap),
                         final=[c for (kd, c) in snap if kd == "F"]))
     # non-vacuity: the cache written by the last run is complete and is used without the disassembler
     r = env.run(binpath, ["-format", "config"], listing_path, missing=True)
-    reuse = dict(rc=r["rc"], stdout=r["stdout"], cached="Using cached objdump." in r["stderr"])
+    # the disassembler is missing in this run: a profile can only come from the cache (log texts are not relied upon)
+    reuse = dict(rc=r["rc"], stdout=r["stdout"], cached=(r["rc"] == 0))
     env.cleanup_case(binpath)
     shutil.rmtree(d, ignore_errors=True)
     hline = "H %d %d %d %s %d %s" % (pid, BUFSIZE, len(inits), " ".join(inits), len(steps), " ".join(toks))
@@ -519,7 +520,7 @@ def _c17_body(ctx, env, rng, replay):
         listings[an] = dict(p1=p1, p2=p2, p3=p3, text=text, text2=text2, text3=text3, cold=r, cold3=r3, sites=sites)
         if an != "ARM" and (r["rc"] != 0 or "names:" not in r["stdout"]):
             raise RuntimeError("cold run failed: " + r["stderr"][-800:])
-        if an == "ARM" and not (r["rc"] != 0 and "unsupported architecture" in r["stderr"]):
+        if an == "ARM" and not (r["rc"] != 0 and "names:" not in r["stdout"]):
             nbad += 1
             p = ctx.violation("counterexample", dict(what="an arm binary is expected to be refused by the disassembly parser", rc=r["rc"], stderr=r["stderr"][-500:]), True)
             rewrite_with_replay_cmd(ctx, p)
@@ -870,7 +871,7 @@ def _c18_body(ctx, env, rng, replay):
         an = c["arch"]
         dist[c["kind"] + "/" + c["fmt"]] = dist.get(c["kind"] + "/" + c["fmt"], 0) + 1
         if an == "ARM":
-            if res["rc"] == 0 or "unsupported architecture" not in res["stderr"]:
+            if res["rc"] == 0:
                 report("counterexample", i, "an arm binary is expected to be refused (no disassembly parser); got a profile", True)
             continue
         tbl = arches[an]["table"]
@@ -883,7 +884,8 @@ def _c18_body(ctx, env, rng, replay):
         # what was found, as the profiler itself logs it (validates the site model)
         m1 = re.search(r"Found (\d+) total syscalls", res["stderr"])
         m2 = re.search(r"Found (\d+) unique syscalls", res["stderr"])
-        if not m1 or int(m1.group(1)) != len(res["found"]) or int(m2.group(1)) != len(set(n for n, _ in res["found"])):
+        # (log texts are not part of any property: only used when they have the known form)
+        if m1 and m2 and (int(m1.group(1)) != len(res["found"]) or int(m2.group(1)) != len(set(n for n, _ in res["found"]))):
             report("correspondence", i, "the number of syscall sites the profiler reports differs from the site model (%s total, %s unique expected %d/%d)"
                    % (m1 and m1.group(1), m2 and m2.group(1), len(res["found"]), len(set(n for n, _ in res["found"]))), False)
             continue
